@@ -120,16 +120,26 @@ func HarnessC10Shared() {
 // definition accepts exactly the documents of ITS definition's schema.
 func HarnessC10Names() {
 	names := []string{"line-ref", "lineRef", "line_ref", "LineRef"}[:zzvrt.Param("NAMES", 3)]
-	pool := []string{"integer", "string", "boolean"}
+	pool := []string{"integer", "string", "boolean", "enum:a,b", "enum:a,c"}[:zzvrt.Param("POOLKINDS", 5)]
 	defs := schemas.Definitions{}
 	props := map[string]*schemas.Type{}
 	specs := map[string]*zzSpec{}
 	cls := ""
+	anyEnum := false
 	for i, nm := range names {
 		k := pool[zzvrt.Choice(len(pool))]
-		defs[nm] = &schemas.Type{Type: schemas.TypeList{k}}
 		p := "p" + string(rune('0'+i))
 		props[p] = &schemas.Type{Ref: "#/$defs/" + nm}
+		if len(k) > 5 && k[:5] == "enum:" {
+			// string enums that differ in one member
+			vals := []string{k[5:6], k[7:8]}
+			defs[nm] = &schemas.Type{Type: schemas.TypeList{"string"}, Enum: []interface{}{vals[0], vals[1]}}
+			specs[p] = &zzSpec{kind: "enum-string", enumS: vals}
+			cls += "e" + vals[1]
+			anyEnum = true
+			continue
+		}
+		defs[nm] = &schemas.Type{Type: schemas.TypeList{k}}
 		specs[p] = &zzSpec{kind: k}
 		cls += k[:1]
 	}
@@ -171,5 +181,8 @@ func HarnessC10Names() {
 	}
 	zzvrt.Cover("colliding-names:" + cls)
 	zzvrt.Check("C10.names.each-reference-means-its-own-definition", zzvrt.Iff(accepted, f.all()))
-	zzvrt.Check("C03.names.wrong-type-rejected-through-colliding-definition-names", zzvrt.Iff(accepted, f.typ))
+	zzvrt.Check("C03.names.wrong-type-rejected-through-colliding-definition-names", zzvrt.Implies(f.others("typ"), zzvrt.Iff(accepted, f.typ)))
+	if anyEnum {
+		zzvrt.Check("C08.names.each-reference-has-its-own-enum", zzvrt.Implies(f.others("enum"), zzvrt.Iff(accepted, f.enum)))
+	}
 }
